@@ -27,6 +27,7 @@ from __future__ import annotations
 import collections.abc
 import itertools
 import numbers
+import os
 from dataclasses import dataclass
 from typing import List, Optional
 
@@ -157,10 +158,10 @@ def digits(v):
 
 # ----------------------------------------------------------------------------------- plan (numbered entries)
 class Ent:
-    __slots__ = ("idx", "inner", "kind", "pred")
+    __slots__ = ("idx", "inner", "kind", "pred", "raw")
 
-    def __init__(self, idx, pred, kind, inner=None):
-        self.idx, self.pred, self.kind, self.inner = idx, pred, kind, inner
+    def __init__(self, idx, pred, kind, inner=None, raw=None):
+        self.idx, self.pred, self.kind, self.inner, self.raw = idx, pred, kind, inner, raw
 
     def __repr__(self):
         return f"#{self.idx}:{self.pred}/{self.kind}"
@@ -204,7 +205,7 @@ class Plan:
             if kind == "retort":
                 spec = r[2]
                 inner = RCtx(self._ents(spec.get("recipe", [])), spec.get("strict", True), spec.get("debug", 2))
-            out.append(Ent(idx, pred, kind, inner))
+            out.append(Ent(idx, pred, kind, inner, r))
         return out
 
     def reference_ctx(self) -> RCtx:
@@ -412,7 +413,7 @@ class Wrapped(Provider):
             if type(request).__name__ != req_name:
                 return handler(mediator, request)
             if log is not None:
-                log.append((stack_key(request.loc_stack), idx))
+                log.append((request, idx))  # the Request object identifies one send (kept alive by the log)
             if mode == "decline":
                 raise CannotProvide(f"entry {idx} declines")
             if mode == "pass":
@@ -511,9 +512,25 @@ def option_data(req):
 
 
 def per_stack(log):
+    """reference log -> {stack: consultation sequence} (the reference resolves every location once)"""
     out: dict = {}
     for stack, idx in log:
         out.setdefault(stack, []).append(idx)
+    return out
+
+
+def per_send(log):
+    """real log -> {stack: [consultation sequence of send 1, of send 2, ...]}; one send == one Request object
+    (every ``request.append_loc(...)`` / facade call creates a new one; chaining and nested retorts pass it on)."""
+    sends: dict = {}
+    for request, idx in log:
+        ent = sends.get(id(request))
+        if ent is None:
+            ent = sends[id(request)] = (stack_key(request.loc_stack), [])
+        ent[1].append(idx)
+    out: dict = {}
+    for stack, seq in sends.values():
+        out.setdefault(stack, []).append(seq)
     return out
 
 
@@ -522,7 +539,7 @@ def fmt_stack(stack):
 
 
 def fmt_log(d):
-    return {fmt_stack(s): v for s, v in sorted(d.items())}
+    return {fmt_stack(s): (v[0] if len(v) == 1 and isinstance(v[0], list) else v) for s, v in sorted(d.items())}
 
 
 def same_value(a, b):
@@ -605,48 +622,43 @@ def check_case(ctx: runner.Ctx, case):  # noqa: C901, PLR0912, PLR0915
 
     feature = ("nested" if len(ctxs) > 1 else "cls" if plan.cls_shape else "ops" if plan.ops else "plain_retort")
 
-    def viol(diff, detail):
-        # explained == the real tree behaves EXACTLY as the transcription of the known defect predicts
-        ctx.violation("resolution_mismatch", (explained, diff, direction, feature), case, detail)
-
     # ---- run the real thing
-    builder = Builder(direction, logged)
-    retort = builder.retort(plan)
-    tp = REQ_TYPES[req]
-    explained = "unexplained"
-    try:
-        func = retort.get_loader(tp) if direction == "load" else retort.get_dumper(tp)
-    except Exception as e:  # noqa: BLE001 -- every request here is servable by the builtin providers
-        ctx.violation("resolution_failed", (type(e).__name__, exc_site(e), direction), case, describe(e))
+    status, got, got_log, func = run_real(plan, direction, req, logged, datum)
+    if status != "ok":
+        kind, e = status
+        ctx.violation(kind, (type(e).__name__, exc_site(e), direction), case,
+                      f"datum={datum!r} expected={digits(expected)}: {describe(e)}; reference recipe={top.seq}")
         return
-    creation_log = list(builder.log)
-
-    try:
-        got = func(datum)
-    except Exception as e:  # noqa: BLE001
-        ctx.violation("call_failed", (type(e).__name__, exc_site(e), direction), case,
-                      f"datum={datum!r} expected={digits(expected)}: {describe(e)}")
-        return
-    if len(builder.log) != len(creation_log):
-        ctx.violation("consulted_at_call_time", (direction,), case, "providers were consulted while loading/dumping")
-
     value_ok = same_value(got, expected)
-    bug_expected = bug.run(bug_tree, datum) if affected else expected
-    log_ok, log_rep = True, False
-    got_log = per_stack(creation_log)
-    if logged:
-        log_ok, log_rep = _cmp_logs(got_log, ref_log)
+    log_ok, log_rep = _cmp_logs(got_log, ref_log) if logged else (True, False)
     if not value_ok or not log_ok:
-        if affected and same_value(got, bug_expected) and (not logged or _cmp_logs(got_log, bug_log)[0]):
+        # "stale_single_combo" == the real tree behaves EXACTLY (value and log) as the transcription of the known
+        # defect predicts for this case; anything else stays "unexplained"
+        explained = "unexplained"
+        if affected and same_value(got, bug.run(bug_tree, datum)) and (not logged or _cmp_logs(got_log, bug_log)[0]):
             explained = "stale_single_combo"
-        if logged and not log_ok:
-            diff = _log_diff(got_log, ref_log)
-        else:
-            diff = "value_only"
-        viol(diff, f"request={req} dir={direction} value got={digits(got)} expected={digits(expected)}; "
-                   f"log got={fmt_log(got_log)} expected={fmt_log(ref_log)}; flattened reference recipe={top.seq}")
-    elif log_rep:
+            ctx.count("mismatches_explained_exactly_by_known_defect_model")
+        diff = _log_diff(got_log, ref_log) if logged and not log_ok else "value_only"
+        # localise the root cause: does the equivalent flat ``Retort(recipe=...)`` disagree as well (-> routing), or
+        # only the construction route (extend / replace / class recipes)?  is the other direction wrong as well?
+        where = feature
+        if feature in ("cls", "ops"):
+            flat = {"dir": direction, "req": req, "recipe": [e.raw for e in top.seq], "logged": logged,
+                    "strict": top.strict, "debug": top.debug}
+            where = "routing" if not agrees(flat) else feature
+        elif feature == "plain_retort":
+            where = "routing"
+        other = dict(case, dir="dump" if direction == "load" else "load")
+        dirs = "both_directions" if not agrees(other) else f"{direction}_only"
+        ctx.violation("resolution_mismatch", (explained, diff, where, dirs), case,
+                      f"request={req} dir={direction} value got={digits(got)} expected={digits(expected)}; "
+                      f"consultation log got={fmt_log(got_log)} expected={fmt_log(ref_log)}; "
+                      f"flattened reference recipe={top.seq}")
+        return
+    if log_rep:
         ctx.count("unspecified_sub_request_sent_more_than_once")
+    if affected and logged:
+        ctx.count("known_defect_model_predicted_a_difference_but_reference_held")
 
     # ---- options of the serving retort (load only; informative when retorts with different options are involved)
     if direction == "load" and (len(ctxs) > 1 or any(op == "replace" for op, _ in plan.ops) or case.get("optprobe")):
@@ -666,18 +678,47 @@ def check_case(ctx: runner.Ctx, case):  # noqa: C901, PLR0912, PLR0915
                 continue
             ok = exp[0] == act[0] and (same_value(exp[1], act[1]) if exp[0] == "ok" else exp[1] in (None, act[1]))
             if not ok:
-                if affected:
-                    try:
-                        bexp = ("ok", bug.run(bug_tree, d))
-                    except RefLoadError as e:
-                        bexp = ("load_error", e.aggregate)
-                    if bexp[0] == act[0] and (same_value(bexp[1], act[1]) if bexp[0] == "ok"
-                                              else bexp[1] in (None, act[1])):
-                        explained = "stale_single_combo"
-                ctx.violation("options_mismatch", (explained, exp[0], act[0], feature), case,
-                              f"datum={d!r} expected={exp!r} got={act!r} (strict/debug of the retort whose builtin "
-                              f"provider serves the location must apply); reference recipe={top.seq} "
-                              f"options strict={top.strict} debug={top.debug}")
+                ctx.violation("options_mismatch", (exp[0], act[0], feature), case,
+                              f"datum={d!r} expected={_fmt_outcome(exp)} got={_fmt_outcome(act)} (strict_coercion / "
+                              f"debug_trail of the retort whose builtin provider serves the location must apply); "
+                              f"reference recipe={top.seq} options strict={top.strict} debug={top.debug}")
+
+
+def run_real(plan: Plan, direction, req, logged, datum):
+    """-> (status, value, {stack: [sequence per send]}, loader-or-dumper); status 'ok' or (violation kind, exc)"""
+    builder = Builder(direction, logged)
+    retort = builder.retort(plan)
+    tp = REQ_TYPES[req]
+    try:
+        func = retort.get_loader(tp) if direction == "load" else retort.get_dumper(tp)
+    except Exception as e:  # noqa: BLE001 -- every request here is servable by the builtin providers
+        return ("resolution_failed", e), None, None, None
+    creation_log = list(builder.log)
+    try:
+        got = func(datum)
+    except Exception as e:  # noqa: BLE001 -- markers and builtin providers accept the main datum by construction
+        return ("call_failed", e), None, None, None
+    if len(builder.log) != len(creation_log):
+        return ("consulted_at_call_time", env.HarnessError("providers consulted while loading/dumping")), None, None, None
+    return "ok", got, per_send(creation_log), func
+
+
+def agrees(case) -> bool:
+    """Plain verdict of the main oracle (value + consultation log) on a derived case; used to localise a mismatch."""
+    direction, req, logged = case["dir"], case["req"], case.get("logged", True)
+    plan = Plan(case)
+    top = plan.reference_ctx()
+    ref = Ref(direction)
+    tree = ref.resolve(top, (("T", req, None),))
+    datum = main_datum(req, direction)
+    status, got, got_log, _ = run_real(plan, direction, req, logged, datum)
+    if status != "ok":
+        return False
+    return same_value(got, ref.run(tree, datum)) and (not logged or _cmp_logs(got_log, per_stack(ref.log))[0])
+
+
+def _fmt_outcome(o):
+    return f"value {o[1]!r}" if o[0] == "ok" else f"LoadError(aggregate={o[1]})"
 
 
 def _max_compose(node):
@@ -695,42 +736,54 @@ def _max_compose(node):
 
 
 def _cmp_logs(got, exp):
-    """-> (agrees, some sub-request was sent k>=2 times).  The top-level request is sent exactly once by the harness;
-    how often a builtin provider asks for the same sub-loader is not specified, so k repetitions of the reference
-    sequence are accepted for sub-requests (and counted)."""
+    """-> (agrees, some sub-request was sent more than once).  Every send of a location must show exactly the
+    reference's consultation sequence; the top-level request is sent once by the harness; how often a builtin
+    provider sends the same sub-request is not specified (counted)."""
     if set(got) != set(exp):
         return False, False
     rep = False
     for stack, e in exp.items():
-        g = got[stack]
-        if g == e:
-            continue
-        if len(stack) > 1 and e and len(g) % len(e) == 0 and g == e * (len(g) // len(e)):
+        sends = got[stack]
+        if any(g != e for g in sends):
+            return False, False
+        if len(sends) > 1:
+            if len(stack) == 1:
+                return False, False
             rep = True
-            continue
-        return False, False
     return True, rep
 
 
 def _log_diff(got, exp):
+    """Primary class of a consultation-log disagreement (one word, so that one cause gives few buckets)."""
     kinds = set()
     for stack in set(got) | set(exp):
-        g, e = got.get(stack, []), exp.get(stack, [])
-        if g == e:
-            continue
-        if any(g.count(i) > max(1, e.count(i)) for i in set(g)):
-            kinds.add("consulted_twice")
-        if set(e) - set(g):
-            kinds.add("skipped")
-        if set(g) - set(e):
-            kinds.add("extra")
-        if sorted(g) == sorted(e):
-            kinds.add("order")
-    return "+".join(sorted(kinds)) or "other"
+        e = exp.get(stack, [])
+        for g in got.get(stack, [[]]):
+            if g == e:
+                continue
+            if set(g) - set(e):
+                kinds.add("consulted_entry_that_must_not_be")
+            elif set(e) - set(g):
+                kinds.add("skipped_entry")
+            elif sorted(g) == sorted(e):
+                kinds.add("wrong_order")
+            elif any(g.count(i) > 1 for i in set(g)):
+                kinds.add("consulted_twice")
+        if len(stack) == 1 and len(got.get(stack, [])) > 1:
+            kinds.add("top_level_sent_twice")
+    for k in ("wrong_order", "consulted_entry_that_must_not_be", "skipped_entry", "consulted_twice",
+              "top_level_sent_twice"):
+        if k in kinds:
+            return k
+    return "other"
 
 
 # ----------------------------------------------------------------------------------- known-finding switch
 def exclusion_active() -> bool:
+    """Generators avoid the class affected by the open finding only while it is open
+    (VERIF_C09_NO_EXCLUDE=1 switches the avoidance off, e.g. to validate a candidate fix on the whole domain)."""
+    if os.environ.get("VERIF_C09_NO_EXCLUDE") == "1":
+        return False
     return any(e.get("id") == KNOWN_ID and e.get("status") == "open" for e in runner.load_known(PROP))
 
 
